@@ -147,6 +147,10 @@ static void pause_between(struct thr *t) {
     }
 }
 
+/* one codec context for all threads, living in static storage (asn_codecs.h: the context need not be on the caller's
+ * stack); every other decode passes it, the others pass none */
+static const asn_codec_ctx_t g_shared_ctx = { 1000000 };
+
 static void run_thread_ops(struct thr *t) {
     size_t i;
     for(i = 0; i < t->nops; i++) {
@@ -161,12 +165,12 @@ static void run_thread_ops(struct thr *t) {
             asn_dec_rval_t rv;
             td = o->td;
             tm->t0 = now_ns();
-            rv = asn_decode(0, o->syn, td, &ptr, o->in, o->inlen);
+            rv = asn_decode((i & 1) ? &g_shared_ctx : 0, o->syn, td, &ptr, o->in, o->inlen);
             tm->t1 = now_ns();
             if(t->slots[o->s].ptr) ASN_STRUCT_FREE(*t->slots[o->s].td, t->slots[o->s].ptr);
             t->slots[o->s].td = td;
             t->slots[o->s].ptr = ptr;
-            lg(t, "R dec rc=%d consumed=%zu\n", (int)rv.code, rv.consumed);
+            lg(t, "R dec syn=%s rc=%d consumed=%zu\n", o->synname, (int)rv.code, rv.consumed);
         } else if(!strcmp(o->name, "enc")) {
             struct sink k = { 0, 0, 0 };
             asn_enc_rval_t er;
